@@ -402,6 +402,10 @@ def run_paths(
         else:
             new_eff.extend(effect_fn(node, evl))
         te = tuple(new_eff)
+        if node.kind == 'loop_test' and allowed is False and not any((lab[1] if isinstance(lab, tuple) and lab and lab[0] == 'back' else lab) is False for _s, lab in node.succ):
+            # `while True:` at its iteration bound: the loop has no exit edge here; the path is cut where it stands
+            outcomes.add(te + (tuple(final_fn(evl)) if final_fn is not None else ()))
+            continue
         for s, lab in reversed(node.succ):
             if lab == 'exc':
                 continue
